@@ -1103,10 +1103,47 @@ func runC33(c *Ctx) {
 				})
 			}},
 			reqCallOK("golang.org/x/net/idna.ToASCII"),
-			factReq{"no invalid character", cmpFalse(func(g *Fn, be *ast.BinaryExpr) bool {
-				v, _ := g.ConstVal(be.Y)
-				return be.Op == token.GTR && v == "0" && isLenOf(g, be.X, func(e ast.Expr) bool { return strings.Contains(g.Prov(e), "nonDnsRegex.FindStringIndex()") })
-			})})
+			factReq{"no invalid character", func(g *Fn, fs *FactSet) bool {
+				// the regex found nothing in the converted name: len(FindStringIndex(x)) > 0
+				// false (or == 0 true, or the index nil), or MatchString(x) false
+				isConv := func(e ast.Expr) bool { return strings.Contains(g.Prov(e), "idna.ToASCII()#0") }
+				isFind := func(e ast.Expr) bool {
+					if !strings.Contains(g.Prov(e), "nonDnsRegex.FindStringIndex()") {
+						return false
+					}
+					for _, fc := range methodCalls(g, false, "FindStringIndex") {
+						if !isConv(fc.Args[0]) {
+							return false
+						}
+					}
+					return true
+				}
+				if fs.Has(func(fa *Fact) bool {
+					return fa.Kind == FFalse && g.IsCall(fa.Call, "regexp.Regexp.MatchString") && strings.HasSuffix(g.Prov(fa.Call.Fun.(*ast.SelectorExpr).X), "nonDnsRegex") && isConv(fa.Call.Args[0])
+				}) {
+					return true
+				}
+				return fs.Cmp(func(e, tag ast.Expr, truth bool, fa *Fact) bool {
+					be, ok := ast.Unparen(e).(*ast.BinaryExpr)
+					if !ok || tag != nil {
+						return false
+					}
+					if isNilIdent(g.Info, be.Y) && isFind(be.X) {
+						return be.Op == token.EQL && truth || be.Op == token.NEQ && !truth
+					}
+					v, _ := g.ConstVal(be.Y)
+					if v != "0" || !isLenOf(g, be.X, isFind) {
+						return false
+					}
+					switch be.Op {
+					case token.GTR, token.NEQ:
+						return !truth
+					case token.EQL, token.LEQ:
+						return truth
+					}
+					return false
+				})
+			}})
 	}
 	// the conversion must not map characters after the eligibility checks ran on the unmapped text
 	for _, call := range nz.Calls(false, func(call *ast.CallExpr) bool {
@@ -1133,23 +1170,79 @@ func runC33(c *Ctx) {
 	}
 	c.Ob("challenge", "GenerateCustomRecord#subdomain-is-encoded-token", gcr.Decl.Pos(), okTok, "the record's subdomain is EncodeClientToken(token)")
 	ect := c.Func("spec/acme", "", "EncodeClientToken")
-	okEnc := len(ect.CallsTo(false, "crypto/sha256.New224")) == 1
+	// SHA-224 over exactly the token: New224/Write/Sum(nil) or the one-shot Sum224
+	n224 := ect.CallsTo(false, "crypto/sha256.New224")
+	s224 := ect.CallsTo(false, "crypto/sha256.Sum224")
+	okEnc := len(n224)+len(s224) == 1
+	nw := 0
 	for _, w := range methodCalls(ect, false, "Write") {
+		nw++
 		okEnc = okEnc && ect.Prov(w.Args[0]) == "param#0"
+	}
+	for _, sc := range s224 {
+		nw++
+		okEnc = okEnc && ect.Prov(sc.Args[0]) == "param#0"
+	}
+	okEnc = okEnc && nw == 1
+	for _, sm := range methodCalls(ect, false, "Sum") {
+		// Sum(b) appends to b: only Sum(nil) is the digest alone
+		okEnc = okEnc && len(sm.Args) == 1 && isNilIdent(ect.Info, sm.Args[0])
 	}
 	okHex := false
 	for _, r := range ect.Returns() {
 		okHex = strings.HasPrefix(ect.Prov(r.Results[0]), "call:encoding/hex.EncodeToString()")
 		if call, ok := r.Results[0].(*ast.CallExpr); ok && len(call.Args) == 1 {
-			okHex = okHex && strings.Contains(ect.Prov(call.Args[0]), "sha256.New224().Sum()")
+			pv := ect.Prov(call.Args[0])
+			okHex = okHex && (strings.Contains(pv, "sha256.New224().Sum()") || pv == "call:crypto/sha256.Sum224()[:]")
 		}
 	}
 	c.Ob("challenge", "EncodeClientToken#hex(sha224(token))", ect.Decl.Pos(), okEnc && okHex, "the encoding is the hex of SHA-224 over exactly the token, an injective encoding of a collision-resistant hash: distinct tokens give distinct targets")
 	gr := c.Func("spec/acme", "", "generateRecord")
+	// the content (second result) is built from the subdomain: written into the builder that
+	// yields it, or the leading operand of the concatenation assigned to / returned as it
 	wrote := false
 	for _, w := range methodCalls(gr, false, "WriteString") {
 		if gr.Prov(w.Args[0]) == "param#2" {
 			wrote = true
+		}
+	}
+	leftmost := func(e ast.Expr) ast.Expr {
+		for {
+			be, ok := ast.Unparen(e).(*ast.BinaryExpr)
+			if !ok || be.Op != token.ADD {
+				return ast.Unparen(e)
+			}
+			e = be.X
+		}
+	}
+	if gr.Type.Results != nil {
+		var contentObj types.Object
+		i := 0
+		for _, fld := range gr.Type.Results.List {
+			for _, nm := range fld.Names {
+				if i == 1 {
+					contentObj = gr.Info.Defs[nm]
+				}
+				i++
+			}
+		}
+		for _, nd := range shallowNodes(gr.Body) {
+			switch x := nd.(type) {
+			case *ast.AssignStmt:
+				for j, l := range x.Lhs {
+					if contentObj != nil && gr.ObjOf(l) == contentObj && j < len(x.Rhs) && len(x.Lhs) == len(x.Rhs) {
+						if _, isCat := ast.Unparen(x.Rhs[j]).(*ast.BinaryExpr); isCat && gr.Prov(leftmost(x.Rhs[j])) == "param#2" {
+							wrote = true
+						}
+					}
+				}
+			case *ast.ReturnStmt:
+				if len(x.Results) == 2 {
+					if _, isCat := ast.Unparen(x.Results[1]).(*ast.BinaryExpr); isCat && gr.Prov(leftmost(x.Results[1])) == "param#2" {
+						wrote = true
+					}
+				}
+			}
 		}
 	}
 	c.Ob("challenge", "generateRecord#content-starts-with-subdomain", gr.Decl.Pos(), wrote, "the subdomain is written into the record content")
